@@ -99,6 +99,15 @@ def rows(ctx: Ctx):
         out.append(row)
         return row["ret"]
 
+    # refused calls first (invalid keys, empty aggregate): whatever they do on the error path must not change the
+    # bytes of the calls that follow in this interpreter
+    for bad in (0, r, -1, "1"):
+        for fn in (lambda: suites["pop"].PopProve(bad), lambda: suites["basic"].Sign(bad, b"m"),
+                   lambda: suites["aug"].SkToPk(bad), lambda: suites["pop"].Aggregate([])):
+            try:
+                fn()
+            except Exception:  # noqa: BLE001
+                pass
     allsigs = []
     for sk in sks:
         for sname, S in suites.items():
